@@ -2,7 +2,7 @@
     (`\\?(\{ *-?[0-9.,cq+n]*? *})`, leftmost non-overlapping matches) and the replacement closure of
     inject_command.  Definitions only.  Texts are lists of characters; the delimiter's matches inside
     each item text enter as data (spans in character offsets), as in Model/Field.v. *)
-From SkimV Require Import Common.Base Model.Field.
+From SkimV Require Import Common.Base Gen.Regexes Model.Field.
 
 Definition SQ : char := 39%N.        (* ' *)
 Definition BS : char := 92%N.        (* \ *)
@@ -24,9 +24,8 @@ Fixpoint escape_single_quote (t : text) : text :=
   end.
 Definition quote (t : text) : text := SQ :: escape_single_quote t ++ [SQ].
 
-(** the character class of RE_FIELDS: [0-9.,cq+n] *)
-Definition in_class (c : char) : bool :=
-  is_digit c || (c =? 46)%N || (c =? 44)%N || (c =? 99)%N || (c =? 113)%N || (c =? PLUS)%N || (c =? 110)%N.
+(** the character class of RE_FIELDS, regenerated from the regex literal in the source *)
+Definition in_class (c : char) : bool := existsb (N.eqb c) re_fields_class.
 
 Fixpoint span (p : char -> bool) (t : text) : text * text :=
   match t with
